@@ -317,12 +317,32 @@ var curatedDefer = map[string][]string{
 
 // judgeDefer: the incremental delivery transport. Whatever the frames look like,
 // none of them may carry a value of a denied coordinate.
-func judgeDefer(lab *fedlab.Lab, q string, deny map[string]bool, mode string, sentinels map[string][]string, errOnce bool) []fail {
+func judgeDefer(lab *fedlab.Lab, q string, deny map[string]bool, mode string, sentinels map[string][]string, errOnce bool, keyFields map[string]bool) []fail {
 	a := &authz{deny: deny, errOnce: errOnce}
 	ctx, cancel := context.WithTimeout(context.Background(), 30*time.Second)
 	defer cancel()
-	w, _, err := lab.ExecStream(ctx, q, "", nil, authOptions(a, mode)...)
+	w, reqs, err := lab.ExecStream(ctx, q, "", nil, authOptions(a, mode)...)
 	var fails []fail
+	// pre-fetch authorization holds for the fetches of deferred groups too: a
+	// request whose root fields are all denied is never sent
+	if mode != "post" {
+		for _, r := range reqs {
+			coords, opType := rootCoords(r)
+			allDenied, n := true, 0
+			for _, c := range coords {
+				if keyFields[c] {
+					continue
+				}
+				n++
+				if !deny[c] {
+					allDenied = false
+				}
+			}
+			if n > 0 && allDenied {
+				fails = append(fails, fail{"with pre-fetch authorization a subgraph request is not sent when all of its root fields are denied", "request sent: " + opType + " (deferred operation)", fmt.Sprintf("operation %s\n%s %s (root fields %v)", q, r.Host, r.Query, coords)})
+			}
+		}
+	}
 	if err != nil && !errOnce {
 		return []fail{{"a response is returned", "Execute returned an error (deferred operation)", q + ": " + err.Error()}}
 	}
@@ -717,7 +737,7 @@ func TestCheck(t *testing.T) {
 								for _, dv := range fedlab.DeferVariants(op, 1) {
 									run.Eval(1)
 									run.Count("defer_variants", 1)
-									fails = append(fails, judgeDefer(lab, dv.String(), deny, mode, sent, false)...)
+									fails = append(fails, judgeDefer(lab, dv.String(), deny, mode, sent, false, keyFields)...)
 								}
 							}
 							// the same protected coordinate in TWO deferred fragments, the first
@@ -737,7 +757,7 @@ func TestCheck(t *testing.T) {
 									for _, eo := range []bool{false, true} {
 										run.Eval(1)
 										run.Count("curated_defer_cases", 1)
-										fails = append(fails, judgeDefer(lab, dq, deny, mode, sent, eo)...)
+										fails = append(fails, judgeDefer(lab, dq, deny, mode, sent, eo, keyFields)...)
 									}
 								}
 							}
